@@ -17,13 +17,23 @@ static const char *OPTS[3] = { "", "JOIN_SAME_ENTRIES=1", "PYTHON_STYLE=1" };
 static const int CORE[9] = { 0 /* = # */, 2 + 7 * 2 /* ' ' #; */, 4 + 7 * 1 /* ' =' ; */, 6 /* '' # */,
                              0 + 21 /* = # JOIN */, 0 + 7 * 2 + 42 /* = #; PY */, 1 + 42 /* := # PY */,
                              3 + 21 /* ' \t' # JOIN */, 5 + 7 * 2 /* '\t =' #; */ };
+/* "any delimiter set, any comment set": sets nobody would choose but a caller may pass - a blank or TAB as comment character,
+ * the same character as delimiter and comment, structural characters ([ ] " NL) in either set (tags 200+i, option-less) */
+#define NODD 10
+static const char *ODD_D[NODD] = { "=", "=", " ", "=", "#", "[", "=", "\"", "=\n", "]=" };
+static const char *ODD_C[NODD] = { " ", "#\t", " ", "=", "#", "#", "[", "#", "#", "\"" };
 static int cfg_d, cfg_c, cfg_o;
-static void set_cfg(int idx) { cfg_d = idx % 7; cfg_c = (idx / 7) % 3; cfg_o = idx / 21; }
+static const char *cur_D, *cur_C;
+static void set_cfg(int idx)
+{
+  if (idx >= 200) { cfg_o = 0; cfg_d = cfg_c = 0; cur_D = ODD_D[idx - 200]; cur_C = ODD_C[idx - 200]; return; }
+  cfg_d = idx % 7; cfg_c = (idx / 7) % 3; cfg_o = idx / 21; cur_D = DELIMS[cfg_d]; cur_C = COMMENTS[cfg_c];
+}
 
 static const unsigned char ALPHA[13] = { '\n', ' ', '\t', '=', '#', ';', '"', '[', ']', 'a', 0, 0xE9, '\\' };
 
 static int mode, n1, n2;
-#define core_only (mc_tag >= 100)   /* tags 100+i: exploration on the core configuration CORE[i] */
+#define core_only (mc_tag >= 100 && mc_tag < 200)   /* tags 100+i: exploration on the core configuration CORE[i] */
 static unsigned char content[40000]; static size_t content_len;
 static char dirpath[300], filepath[400], outdir[300];
 
@@ -67,7 +77,7 @@ static void gen(void)
     }
     return;
   }
-  set_cfg(core_only ? CORE[mc_tag - 100] : mc_tag);
+  set_cfg(mc_tag >= 200 ? mc_tag : core_only ? CORE[mc_tag - 100] : mc_tag);
   content_len = 0;
   if (mode == 0) {
     int len = mc_choose((core_only ? n2 : n1) + 1);
@@ -97,7 +107,7 @@ static econf_file *read_current(const unsigned char *data, size_t len, int *rcp)
   econf_err rc;
   mc_write_file(filepath, data, len);
   if (cfg_o == 0) {
-    rc = econf_readFile(&kf, filepath, DELIMS[cfg_d], COMMENTS[cfg_c]);
+    rc = econf_readFile(&kf, filepath, cur_D, cur_C);
     mc_st->libcalls++;
   } else {
     char opt[512];
@@ -105,7 +115,7 @@ static econf_file *read_current(const unsigned char *data, size_t len, int *rcp)
     rc = econf_newKeyFile_with_options(&kf, opt);
     mc_st->libcalls++;
     if (rc != ECONF_SUCCESS) { mc_fail(mc_case_sig, "econf_newKeyFile_with_options(%s) failed: %d", opt, (int)rc); if (kf) econf_freeFile(kf); *rcp = rc; return NULL; }
-    rc = econf_readConfig(&kf, NULL, NULL, "f", "conf", DELIMS[cfg_d], COMMENTS[cfg_c]);
+    rc = econf_readConfig(&kf, NULL, NULL, "f", "conf", cur_D, cur_C);
     mc_st->libcalls++;
     if (rc != ECONF_SUCCESS && kf) { econf_freeFile(kf); kf = NULL; }
   }
@@ -164,7 +174,7 @@ static void make_sig(void)
   sb_puts(&sig, "file=\"");
   if (content_len > 120) { sb_put_esc(&sig, (const char *)content, 60); sb_printf(&sig, "...(%zu bytes)", content_len); }
   else sb_put_esc(&sig, (const char *)content, content_len);
-  sb_puts(&sig, "\" delim=\""); sb_put_escs(&sig, DELIMS[cfg_d]); sb_puts(&sig, "\" comment=\""); sb_put_escs(&sig, COMMENTS[cfg_c]);
+  sb_puts(&sig, "\" delim=\""); sb_put_escs(&sig, cur_D); sb_puts(&sig, "\" comment=\""); sb_put_escs(&sig, cur_C);
   sb_printf(&sig, "\" options=\"%s\"", OPTS[cfg_o]);
   snprintf(mc_case_sig, sizeof mc_case_sig, "%s", sig.s);
   sb_free(&sig);
@@ -282,6 +292,7 @@ int main(int argc, char **argv)
   if (mc_opt.case_id) return mc_replay(gen, exec, mc_opt.case_id);
   int complete = 1;
   for (int c = 0; c < NCFG && complete; c++) { mc_tag = c; complete = mc_explore(gen, exec, 0, 0); }
+  for (int c = 0; c < NODD && complete; c++) { mc_tag = 200 + c; complete = mc_explore(gen, exec, 0, 0); }
   if (complete) mc_st->bound_completed = n1;
   if (complete && n2 > n1) {
     int ncore = mc_opt.param[3] ? (int)mc_opt.param[3] : 9;
